@@ -1429,7 +1429,8 @@ def run(ctx):
                     old = json.load(fh)
             except Exception:
                 old = []
-        keep = [o for o in old if o.get("class") not in seenc]
+        probed = {k[0] for k in KNOWN} | {"derive_native_receiver"}
+        keep = [o for o in old if o.get("class") not in seenc and o.get("class") not in probed]   # a probed class that no longer reproduces is dropped
         yvlib.write_json(fpath, keep + uniq)
 
 
